@@ -10,29 +10,38 @@
 (***************************************************************************)
 EXTENDS Integers, Sequences, FiniteSets, TLC, Json, IOUtils, TLCExt
 TraceLog == ndJsonDeserialize(IOEnv.TRACE)
-VARIABLES l, maxv, held
-tvars == <<l, maxv, held>>
+CONSTANTS Known
+VARIABLES l, maxv, held, dev
+tvars == <<l, maxv, held, dev>>
 Ev == TraceLog[l]
 Is(e) == l <= Len(TraceLog) /\ Ev.e = e /\ l' = l + 1
-TInit == l = 2 /\ maxv = <<>> /\ held = {}
-TReset == Is("reset") /\ maxv' = <<>> /\ held' = {}
+TInit == l = 2 /\ maxv = <<>> /\ held = {} /\ dev = {}
+TReset == Is("reset") /\ maxv' = <<>> /\ held' = {} /\ dev' = {}
 \* versions 0..k of row o have been committed by the end of the run
-TMax  == Is("lmax") /\ maxv' = [x \in DOMAIN maxv \cup {Ev.o} |-> IF x = Ev.o THEN Ev.k ELSE maxv[x]] /\ UNCHANGED held
+TMax  == Is("lmax") /\ maxv' = [x \in DOMAIN maxv \cup {Ev.o} |-> IF x = Ev.o THEN Ev.k ELSE maxv[x]] /\ UNCHANGED <<held, dev>>
 \* the distinct triples <<a, b, s>> some reader saw on row o inside one callback
+\* The set is logged run-length encoded (lossless): <<a, b, s, n>> stands for the triples <<a+i, b+2i, s+i>>, i < n.
+\* Every one of them is a committed version <<k, 2k, k>>, 0 <= k <= maxv, iff the first one is and the last one's
+\* k does not exceed maxv (the three components advance in step with k).
+Whole(r, mx) == r[4] >= 1 /\ r[2] = 2 * r[1] /\ r[3] = r[1] /\ 0 <= r[1] /\ r[1] + r[4] - 1 <= mx
+\* each component on its own is a value that some transaction committed
+Parts(r, mx) == /\ r[4] >= 1 /\ 0 <= r[1] /\ r[1] + r[4] - 1 <= mx
+                /\ r[2] % 2 = 0 /\ 0 <= r[2] /\ r[2] \div 2 + r[4] - 1 <= mx
+                /\ 0 <= r[3] /\ r[3] + r[4] - 1 <= mx
 TRead == /\ Is("lread") /\ UNCHANGED <<maxv, held>>
          /\ Ev.o \in DOMAIN maxv
-         \* the set is logged run-length encoded (lossless): <<a, b, s, n>> stands for the triples <<a+i, b+2i, s+i>>, i < n.
-         \* Every one of them is a committed version <<k, 2k, k>>, 0 <= k <= maxv, iff the first one is and the last one's
-         \* k does not exceed maxv (the three components advance in step with k).
-         /\ \A j \in DOMAIN Ev.runs :
-              LET r == Ev.runs[j] IN r[4] >= 1 /\ r[2] = 2 * r[1] /\ r[3] = r[1] /\ 0 <= r[1] /\ r[1] + r[4] - 1 <= maxv[Ev.o]
+         /\ \E mode \in {"strict"} \cup (IF Ev.how = "ascend" /\ "D-ascend-no-latch" \in Known THEN {"asbuilt"} ELSE {}) :
+              /\ IF mode = "strict" THEN \A j \in DOMAIN Ev.runs : Whole(Ev.runs[j], maxv[Ev.o])
+                 ELSE /\ \E j \in DOMAIN Ev.runs : ~Whole(Ev.runs[j], maxv[Ev.o])
+                      /\ \A j \in DOMAIN Ev.runs : Parts(Ev.runs[j], maxv[Ev.o])
+              /\ dev' = IF mode = "asbuilt" THEN dev \cup {"D-ascend-no-latch"} ELSE dev
 \* probes
-THeld == Is("lheld") /\ held' = held \cup {Ev.b} /\ UNCHANGED maxv
-TRel  == Is("lrel")  /\ held' = held \ {Ev.b} /\ UNCHANGED maxv
-TProbe == Is("lprobe") /\ UNCHANGED <<maxv, held>> /\ Ev.completed = (Ev.rb \notin held)
+THeld == Is("lheld") /\ held' = held \cup {Ev.b} /\ UNCHANGED <<maxv, dev>>
+TRel  == Is("lrel")  /\ held' = held \ {Ev.b} /\ UNCHANGED <<maxv, dev>>
+TProbe == Is("lprobe") /\ UNCHANGED <<maxv, held, dev>> /\ Ev.completed = (Ev.rb \notin held)
 TNext == TReset \/ TMax \/ TRead \/ THeld \/ TRel \/ TProbe
 TSpec == TInit /\ [][TNext]_tvars
-Record == TLCSet(1, <<IF l > TLCGet(1)[1] THEN l ELSE TLCGet(1)[1], {}>>)
+Record == TLCSet(1, <<IF l > TLCGet(1)[1] THEN l ELSE TLCGet(1)[1], TLCGet(1)[2] \cup dev>>)
 ASSUME TLCSet(1, <<0, {}>>)
 Accepted == /\ PrintT(<<"DEV", TLCGet(1)[2]>>)
             /\ PrintT(<<"MATCHED", TLCGet(1)[1] - 1, Len(TraceLog)>>)
